@@ -6,13 +6,17 @@ import json, os, shutil, sys, io, contextlib
 ROOT = os.path.dirname(os.path.dirname(os.path.abspath(__file__)))
 sys.path.insert(0, os.path.join(ROOT, "tools"))
 import seeded
-for pid in sys.argv[1:]:
-    src = "/tmp/seed_%s/out" % pid
+args = sys.argv[1:]
+ROUND2 = "--round2" in args
+args = [a for a in args if a != "--round2"]
+NAMES = {"A": "C", "B": "D"} if ROUND2 else {"A": "A", "B": "B"}
+for pid in args:
+    src = ("/tmp/seed2_%s/out" if ROUND2 else "/tmp/seed_%s/out") % pid
     notes = json.load(open(os.path.join(src, "notes.json"))) if os.path.exists(os.path.join(src, "notes.json")) else {}
     for v in "AB":
         if not os.path.exists(os.path.join(src, v + ".diff")):
             print(pid, v, "missing"); continue
-        d = os.path.join(ROOT, "seeded", "%s_%s" % (pid, v))
+        d = os.path.join(ROOT, "seeded", "%s_%s" % (pid, NAMES[v]))
         os.makedirs(d, exist_ok=True)
         shutil.copy(os.path.join(src, v + ".diff"), os.path.join(d, "patch.diff"))
         shutil.copy(os.path.join(src, "demo%s.py" % v), os.path.join(d, "demo.py"))
@@ -23,4 +27,4 @@ for pid in sys.argv[1:]:
                 "confirmed": ok, "what_i_ran": "tools/seeded.py confirm: demo rc on unchanged scratch copy = %d, with the change = %d; pytest (pinned baseline collection) with the change: %s" % (
                     info["demo_unchanged_rc"], info["demo_changed_rc"], info["suite"])}
         json.dump(meta, open(os.path.join(d, "meta.json"), "w"), indent=1)
-        print(pid, v, "CONFIRMED" if ok else "NOT CONFIRMED")
+        print(pid, NAMES[v], "CONFIRMED" if ok else "NOT CONFIRMED")
